@@ -32,6 +32,7 @@ const (
 	phRefused    = "refused"      // every session: a burst of N datagrams the kernel refuses to send (target port 0) back to back, then a paced valid one
 	phExpiry     = "expiryProbe"  // one datagram per session timed around the instant the idle timeout fires (packet arrives while the session is torn down)
 	phReinit     = "reinit"       // round 6: N new clients whose first datagrams make session initialisation FAIL (Variant), then - from the same client address:port - a valid datagram that must start a working session
+	phIdleHalf   = "idleHalf"     // round 6: every session sends one datagram; half a NAT timeout after it the destination sends one more reply, which must still be relayed (the session lives for the CONFIGURED timeout, not a shorter one)
 	phRefusedMix = "refusedMix"   // round 6: every session writes N datagrams back to back of which number Pct (Variant "double": also Pct+2) is addressed to port 0 (refused by the kernel); every other one must reach the destination
 )
 
@@ -162,7 +163,7 @@ func drawPlan(rt *rapid.T) *plan {
 	}
 	if evict {
 		alphabet := []string{phEstablish, phBurst, phFlood, phPauseShort, phPauseEvict, phPauseEvict, phResend, phReject, phFailInit, phExpiry, phExpiry, phRefused,
-			phRefusedMix, phRefusedMix, phReinit, phReinit}
+			phRefusedMix, phRefusedMix, phReinit, phReinit, phIdleHalf}
 		if p.NATTimeoutMs >= 400 && p.NATTimeoutMs <= 700 {
 			alphabet = append(alphabet, phKeepAlive, phKeepAlive)
 		}
@@ -252,6 +253,8 @@ func (p *plan) class() string {
 			s += "rei:" + ph.Variant + ","
 		case phRefusedMix:
 			s += "rmx,"
+		case phIdleHalf:
+			s += "idh,"
 		default:
 			s += ph.Kind[:2] + ph.Kind[len(ph.Kind)-1:] + ","
 		}
